@@ -194,13 +194,29 @@ func (s *Set[T]) unsafeIterator() *fun.Iterator[T] {
 // the Set's lock when called.
 func (s *Set[T]) Producer() (out fun.Producer[T]) {
 	defer s.with(s.lock())
-	defer func() { mu := s.mtx.Get(); ft.WhenDo(mu != nil, func() fun.Producer[T] { return out.WithLock(mu) }) }()
+	mu := s.mtx.Get()
 
-	if s.list != nil {
-		return s.list.Producer()
+	switch {
+	case s.list != nil:
+		out = s.list.Producer()
+	case mu != nil:
+		// the map-backed producer ranges over the map from its
+		// own goroutine, which cannot hold the lock: iterate
+		// over a snapshot of the members instead.
+		keys := make([]T, 0, len(s.hash))
+		for k := range s.hash {
+			keys = append(keys, k)
+		}
+		return fun.SliceIterator(keys).Producer()
+	default:
+		return s.hash.ProducerKeys()
 	}
 
-	return s.hash.ProducerKeys()
+	if mu != nil {
+		out = out.WithLock(mu)
+	}
+
+	return out
 }
 
 // Equal tests two sets, returning true if the items in the sets have
